@@ -250,9 +250,16 @@ class Gen:
         self.mark_classes = []
         if r.random() < self.k["gdef"]:
             self.prog["gdef"] = {"base": letters[: n - 2], "lig": ligs, "mark": marks}
+            # mark classes are disjoint: GDEF has one MarkAttachClassDef, overlapping MarkAttachmentType classes are an error
+            pool = list(marks)
+            r.shuffle(pool)
             for i in range(r.randint(0, 2)):
+                k = r.randint(1, 2)
+                part, pool = pool[:k], pool[k:]
+                if not part:
+                    break
                 nm = f"MC{i}"
-                self.prog["classes"][nm] = sorted(r.sample(marks, r.randint(1, 2)), key=glyphs.index)
+                self.prog["classes"][nm] = sorted(part, key=glyphs.index)
                 self.mark_classes.append(nm)
         for i in range(r.randint(0, self.k["n_classes"])):
             self.prog["classes"][f"c{i}"] = sorted(r.sample(letters[:7], r.randint(2, 3)), key=glyphs.index)
@@ -307,14 +314,14 @@ class Gen:
                     nblock += 1
                     body.append(["block", l])
                     self.named[l["name"]] = l
+                    cur_flag = None  # whether the block's own lookupflag outlives the block is not settled: restate before loose rules
                 else:
                     # the flag in force after a nested lookup block is not something the specification pins down:
                     # always restate it there
                     # (and a lookupflag statement that changes nothing may or may not start a new lookup: never emit one)
-                    after_block = bool(body) and body[-1][0] == "block"
-                    if r.random() < 0.35 or after_block:
+                    if r.random() < 0.35 or cur_flag is None:
                         f = self.flag()
-                        if f != cur_flag or after_block:
+                        if f != cur_flag:
                             body.append(["lookupflag", f])
                             cur_flag = f
                     l = self.lookup("_")
